@@ -33,8 +33,12 @@ Fixpoint listN_eqb (a b : list N) : bool :=
 Definition c19_ok (c : c19case) : bool :=
   match c with
   | RecCase outer inner panic calls observed =>
+    (* panic = Some 100 stands for "returns its own error (class 100) without panicking" *)
     let core : hout N (option N) :=
-        match panic with None => Returns None | Some k => Panics (pv k) end in
+        match panic with
+        | None => Returns None
+        | Some k => if k =? 100 then Returns (Some 100) else Panics (pv k)
+        end in
     let '(o, cs) := chain_with_recover N (option N) (fun v => Some (pv_class v)) outer inner core in
     let res := match o with
                | Returns None => RNormal
